@@ -3,6 +3,10 @@ package checks
 import (
 	"encoding/json"
 	"fmt"
+	"os"
+	"os/exec"
+	"strconv"
+	"strings"
 	"sync/atomic"
 
 	"github.com/alttpo/snes/color15"
@@ -73,6 +77,16 @@ func c17CheckOne(cs c17Case) (sig, what string) {
 		if r != cs.R&31 || g != cs.G&31 || b != cs.B&31 || uint16(c)&0x8000 != 0 {
 			return "unexplained:pack-unpack", fmt.Sprintf("ToColor15(%d,%d,%d)=$%04x unpacks to (%d,%d,%d)", cs.R, cs.G, cs.B, uint16(c), r, g, b)
 		}
+	case "first-divisor":
+		// a fresh process whose first MulDiv call uses divisor cs.Div (what a process does first must not
+		// specialise the function): the child sweeps all colours and multiplicands for that divisor
+		out, err := c17SpawnChild(cs.Div)
+		if err != nil {
+			return "oracle-broken", "child process: " + err.Error()
+		}
+		if !strings.HasPrefix(out, "FIRSTDIV-OK") {
+			return "unexplained:muldiv-depends-on-first-call", fmt.Sprintf("in a fresh process whose first MulDiv call has divisor %d: %s", cs.Div, strings.TrimSpace(out))
+		}
 	case "muldiv-twice":
 		// the identical call made twice in a row (a palette with a run of equal entries)
 		_ = color15.Color(cs.Color).MulDiv(cs.Mul, cs.Div)
@@ -111,6 +125,45 @@ func c17CheckOne(cs c17Case) (sig, what string) {
 	return "", ""
 }
 
+func c17SpawnChild(d uint8) (string, error) {
+	cmd := exec.Command(os.Args[0], "C17-child")
+	cmd.Env = append(os.Environ(), fmt.Sprintf("VERIF_C17_FIRST_DIV=%d", d))
+	out, err := cmd.Output()
+	if err != nil && len(out) == 0 {
+		return "", err
+	}
+	return string(out), nil
+}
+
+// C17FirstDivChild is the body of the child process: its very first MulDiv call has the given divisor.
+func C17FirstDivChild(ds string) int {
+	d, err := strconv.Atoi(ds)
+	if err != nil || d < 1 || d > 255 {
+		fmt.Println("FIRSTDIV-ERR bad divisor", ds)
+		return 2
+	}
+	_ = color15.Color(0x7FFF).MulDiv(1, uint8(d))
+	for _, dd := range []int{d, d ^ 1, 255, 1} {
+		if dd == 0 {
+			continue
+		}
+		for c := 0; c < 1<<16; c++ {
+			if dd != d && c&0x3FF != 0x2A5 && c != 0x7FFF {
+				continue
+			}
+			for m := 0; m < 256; m++ {
+				got := uint16(color15.Color(c).MulDiv(uint8(m), uint8(dd)))
+				if want := c17RefMulDiv(uint16(c), uint8(m), uint8(dd)); got != want {
+					fmt.Printf("FIRSTDIV-BAD Color($%04x).MulDiv(%d,%d) = $%04x, want $%04x\n", c, m, dd, got, want)
+					return 0
+				}
+			}
+		}
+	}
+	fmt.Println("FIRSTDIV-OK")
+	return 0
+}
+
 func replayC17(raw json.RawMessage) (string, error) {
 	var cs c17Case
 	if err := json.Unmarshal(raw, &cs); err != nil {
@@ -125,6 +178,16 @@ func replayC17(raw json.RawMessage) (string, error) {
 
 func runC17(r *report.Run) {
 	var evals, nontrivial, saturated int64
+	// what a process does FIRST: 255 child processes, the first MulDiv call of each with another divisor
+	var firstDiv int64
+	par.For(255, func(_, i int) {
+		cs := c17Case{Op: "first-divisor", Div: uint8(i + 1)}
+		atomic.AddInt64(&firstDiv, 1)
+		if sig, what := c17CheckOne(cs); sig != "" {
+			r.Violation(sig, what, cs)
+		}
+	})
+	r.Set("fresh_processes_by_first_divisor", firstDiv)
 	// the short history facets come first: if one of them reports, the full-domain sweeps are skipped
 	// (a change that makes every call slow must not keep the check from reporting)
 	var twice int64
